@@ -34,6 +34,26 @@ ASSUMPTIONS = ["commands do not interleave (C09 owns the locks); two events with
                "tags only; the stacks have no ups_db/global.tags, so `Eups(asAdmin=True)` ends with RuntimeError in "
                "_loadServerTags after it has read or built the caches (reported as the outcome, the caches are checked)"]
 
+# the functions the model mirrors (harness/fingerprint.py): a changed fingerprint makes the quick tier run with the thorough case budget
+MIRRORS = [
+    ('python/eups/Eups.py', 'Eups.declare'),
+    ('python/eups/Eups.py', 'Eups.undeclare'),
+    ('python/eups/Eups.py', 'Eups.assignTag'),
+    ('python/eups/Eups.py', 'Eups.unassignTag'),
+    ('python/eups/Eups.py', 'Eups.remove'),
+    ('python/eups/Eups.py', 'Eups._remove'),
+    ('python/eups/Eups.py', 'Eups.findProducts'),
+    ('python/eups/Eups.py', 'Eups.findProduct'),
+    ('python/eups/Eups.py', 'Eups.__init__'),
+    ('python/eups/Eups.py', 'Eups._setProductStack_fromCache'),
+    ('python/eups/Eups.py', 'Eups.findTaggedProduct'),
+    ('python/eups/stack/ProductStack.py', '*'),
+    ('python/eups/stack/ProductFamily.py', '*'),
+    ('python/eups/db/Database.py', '*'),
+    ('python/eups/app.py', 'clearCache'),
+    ('python/eups/utils.py', 'userStackCacheFor'),
+]
+
 WORKERS = c06.WORKERS
 
 
